@@ -5,6 +5,22 @@ Confirms (in the scratch worktree, never in /repo): patch applies; pinned suite 
 demo fails with it and passes without it.  Then runs ./check <PROPERTY> with VERIF_REPO=<worktree>
 (mutant applied) and records whether it was detected."""
 import json, os, shutil, subprocess, sys, time
+if sys.argv[1] == "--recheck":
+    # seed.py --recheck <name> [--checks ...]: re-run a recorded seeded change in a temporary worktree
+    name = sys.argv[2]
+    V = os.path.dirname(os.path.dirname(os.path.abspath(__file__)))
+    d = os.path.join(V, "seeded", name)
+    meta = json.load(open(os.path.join(d, "meta.json")))
+    wt = f"/tmp/mut/recheck-{name}"
+    subprocess.run(["git", "-C", "/repo", "worktree", "add", "-q", "--detach", wt, "HEAD"], check=True)
+    shutil.copy(os.path.join(d, "patch.diff"), os.path.join(wt, "mutant1.diff"))
+    shutil.copy(os.path.join(d, "demo.py"), os.path.join(wt, "demo1.py"))
+    open(os.path.join(wt, "note1.txt"), "w").write(meta.get("needs_to_manifest", ""))
+    try:
+        rc = subprocess.run([sys.argv[0], wt, "1", meta["property"], name] + sys.argv[3:]).returncode
+    finally:
+        subprocess.run(["git", "-C", "/repo", "worktree", "remove", "--force", wt])
+    sys.exit(rc)
 wt, k, prop, name = sys.argv[1:5]
 checks = [prop]
 if "--checks" in sys.argv:
